@@ -53,14 +53,21 @@ package ociclient
 
 //@ func makeError
 //@   modifies nothing
+//@   log-lib
 //@   requires resp != nil && resp.Request != nil
 //@   ensures[always-an-error] result != nil
+// (C07: an error body of up to 8192 bytes that was read without a failure is
+// decoded - "too large" is said only of a longer one)
+//@   ensures[a-body-within-the-limit-is-decoded] ncallsOf("ReadAll") == 1 && calls[lastOf("ReadAll")].result.1 == nil &&
+//@     len(calls[lastOf("ReadAll")].result.0) <= 8192 ==>
+//@     ncallsOf("makeError1") == 1 && calls[lastOf("makeError1")].arg.1 == calls[lastOf("ReadAll")].result.0
 
 // The HEAD fallback table: a body-less response is mapped to the standard
 // error whose specification status it carries.
 //@ func makeError1
 //@   requires resp != nil && resp.Request != nil
 //@   modifies nothing
+//@   log
 //@   ensures[head-404] resp.Request.Method == "HEAD" && resp.StatusCode == 404 ==> result == ociregistry.ErrNameUnknown
 //@   ensures[head-401] resp.Request.Method == "HEAD" && resp.StatusCode == 401 ==> result == ociregistry.ErrUnauthorized
 //@   ensures[head-403] resp.Request.Method == "HEAD" && resp.StatusCode == 403 ==> result == ociregistry.ErrDenied
